@@ -199,12 +199,18 @@ public:
     virtual void
     reset()
     {
-        std::for_each(
-            m_blocks.begin(),
-            m_blocks.end(),
-            DeleteFunctor<ArenaBlockType>(m_blocks.getMemoryManager()));
+        // reset() is called from the destructor: do not touch
+        // begin()/end() of a block list that was never used,
+        // because they would allocate its head node.
+        if (m_blocks.empty() == false)
+        {
+            std::for_each(
+                m_blocks.begin(),
+                m_blocks.end(),
+                DeleteFunctor<ArenaBlockType>(m_blocks.getMemoryManager()));
 
-        m_blocks.clear();
+            m_blocks.clear();
+        }
     }
 
 protected:
